@@ -170,7 +170,7 @@ PROPS = {
                "extract/save functions and q120_b_from_znx64/c_from_b/add_bbb/add_ccc_simple, translated on every run by tools/c2lean.py "
                "(local arrays, uint32 views of 64-bit cells, inlined static helpers, the precomputation struct as a buffer of cells), is proved "
                "equal to the model functions of lean/Spq/Q120.lean these theorems are about, for every ell / nn (0 included, ell < 2^59), all operand "
-               "words and EVERY precomputation content with h < 64, exact-size buffers, with no out-of-bounds access; the stream cs_q120 "
+               "words and EVERY precomputation content with h < 64, exact-size buffers, result buffer different from the precomputation buffer, with no out-of-bounds access; the stream cs_q120 "
                "runs the generated terms against the compiled functions on the LIVE precomputation objects",
         not_proved="the model is lane-wise (one fold per output lane): for the REFERENCE kernels this is now a theorem about the translated C source, "
                    "for the AVX2 kernels it is tied by the bit-exact streams q1_prod/q1_conv; q120_b_to_znx128_simple (__int128) and q120_c_from_znx64_simple (signed %) are not translated; the floating-point search choosing the split point h is not modelled (its result "
@@ -188,7 +188,7 @@ PROPS = {
         streams=dict(quick=[("mem_pairs", "asan"), ("vz_box", "asan"), ("vz_norm", "asan"), ("kz_probe", "asan"), ("kz_norm", "asan"), ("ca_prog", "asan"), ("md_prod", "asan"), ("md_vmp", "asan"), ("md_ntt", "asan"), ("cv_misc", "asan"), ("cv_rnx", "asan"), ("cv_cplxvec", "asan"), ("ca_small", "asan"), ("big_align", "asan"), ("cv_misc", "plain"), ("mh_arena", "plain"), ("cs_mod", "plain"), ("mh_arena", "asan"), ("small_stack", "plain"), ("huge_span", "plain"), ("ca_bigdim", "asan")],
                      thorough=[("mem_pairs", "asan"), ("vz_box", "asan"), ("vz_norm", "asan"), ("kz_probe", "asan"), ("kz_norm", "asan"), ("ca_prog", "asan"), ("md_prod", "asan"), ("md_vmp", "asan"), ("md_ntt", "asan"), ("cv_misc", "asan"), ("cv_rnx", "asan"), ("cv_cplxvec", "asan"), ("ca_small", "asan"), ("big_align", "asan"), ("cv_misc", "plain"), ("mh_arena", "plain"), ("cs_mod", "plain"), ("mh_arena", "asan"), ("small_stack", "plain"), ("huge_span", "plain"), ("ca_bigdim", "asan")]),
         proved="index logic of every limb-vector operation: declared extents inside the heap imply no out-of-bounds access of the model (all shapes incl. zero limb counts), frame theorems (C18) bound the writes, scratch of the normalisation = one carry limb = *_tmp_bytes; Gen obligation: size formulas = live *_tmp_bytes / bytes_of_* values over a shape box (nn in {2,4,8,16,64,4096,65536}, sizes in {0,1,2,5}) MODULE LAYER (Properties/ModHeap.lean, heap-level model Spq.ModuleHeap tied bit-exactly by stream mh_arena): for vec_znx_dft, vec_znx_idft (in place or not), idft_tmp_a, svp_prepare, svp_apply_dft, znx_small_single_product, vmp_prepare_contiguous, vmp_apply_dft_to_dft and vmp_apply_dft, for all nn, limb counts incl. 0, strides and matrix shapes: when the caller provides the regions of the C contract and exactly *_tmp_bytes(shape) bytes of scratch (formulas of Spq.TmpBytes = live values, Gen obligation), no access leaves the declared regions (ok flag kept), incl. the tmp_space split of vmp_apply_dft and the accumulator/extraction buffers of apply_dft_to_dft. SOURCE TIE OF THE MODULE LAYER (Properties/SrcMod.lean, SrcModVmp.lean): the C source of fft64_vec_znx_dft / idft / idft_tmp_a, fft64_svp_prepare_ref / svp_apply_dft_ref, fft64_znx_small_single_product, fft64_vmp_prepare_contiguous_ref, fft64_vmp_apply_dft_to_dft_ref and fft64_vmp_apply_dft_ref (addressing, loops, scratch split; the arithmetic kernels reached through the module's function pointers are opaque calls whose semantics is the kernel record of Spq.ModuleHeap), translated on every run, is proved equal to the Spq.ModuleHeap entry points whenever the model run is fault-free - so the ModHeap theorems (no access outside the declared regions and *_tmp_bytes, frame, in place = out of place) are about what the source says; stream cs_mod runs the generated terms against the real entry points.",
-        not_proved="runtime residue observed by ASan/UBSan-bounds/LSan on exactly-sized heap buffers, not proved: accesses inside float kernels and asm leaves, alloc/free pairing of new_*/delete_*, alignment, allocator overflow abort; inside the float kernels (conversion, fft, products) accesses are over-approximated to the whole limb/block they are given",
+        not_proved="runtime residue observed by ASan/UBSan-bounds/LSan on exactly-sized heap buffers, not proved: accesses inside float kernels and asm leaves, alloc/free pairing of new_*/delete_*, alignment, allocator overflow abort; inside the float kernels (conversion, fft, products) accesses are over-approximated to the whole limb/block they are given; the SOURCE tie of the module layer covers the _ref entry points only: on an AVX2 host the dispatch installs fft64_vmp_*_avx / fft64_svp_apply_dft_avx, whose source is textually the _ref source with other kernel names and is tied by the streams (mh_arena, cs_mod compare the dispatched functions) but not translated; the SrcMod / SrcModVmp theorems hold for one arena of fewer than 2^61 cells, the codec with enc 0 = 0, module->m = nn/2 and a fault-free model run, and are not composed into one corollary with the ModHeap theorems; the reim4 kernels are direct calls (not through the module tables), and the footprints of the opaque kernels in Spq.ModSem (whole limb / block) are assumptions about those kernels",
         level_text="Lean 4 theorems for the index logic (bounds flag, frame, scratch size) + kernel-decided size-formula obligation on live values; the memory-safety residue is tied by sanitizer builds on exact-size buffers (partial)",
         design_ref="DESIGN.md §5 C11",
         technique="Lean 4 proof of the index logic + regenerated size facts; sanitizer-instrumented correspondence",
@@ -201,7 +201,7 @@ PROPS = {
         variants={"plain": None, "tsan": None},
         streams=dict(quick=[("mt_module", "plain"), ("mt_module", "tsan"), ("ca_prog", "plain")],
                      thorough=[("mt_module", "plain"), ("mt_module", "tsan"), ("ca_prog", "plain")]),
-        proved="(1) read-only threads: for every interleaving the shared memory is unchanged and every thread observes what it observes solo; (2) Gen obligation re-decided by the kernel on every run: the call-graph closure (indirect calls over-approximated) of every exported const MODULE*/const *_PRECOMP* entry point references no shared mutable global; (3) warm-up: a *_simple call after a completed call with the same key performs no write to its cache; (4) shared_caches_keyed_by_dimension_only: every convenience cache that is not thread-local is keyed by the dimension alone (kernel-decided on the extracted structure), which is what the warm-up protocol needs; (5) Properties/C12Warm.lean, for every extracted cache that is not thread-local: Warm D (one completed call per dimension of D, any history) is preserved by every step, and every later call with m in D and ARBITRARY other arguments rebuilds nothing, writes no slot, leaves the cache state unchanged and uses the table built for its m (warmup_no_shared_write, _seq, warmup_from_history); lifted to threads whose atomic actions are convenience calls executed by the real step (warmup_schedule_indep: every schedule leaves the shared cache unchanged, per-thread observations = solo); thread-local caches work on a per-thread object (tls_rows_private, tls_schedule_indep)",
+        proved="(1) read-only threads: for every interleaving the shared memory is unchanged and every thread observes what it observes solo; (2) Gen obligation re-decided by the kernel on every run: the call-graph closure (indirect calls over-approximated) of every exported const MODULE*/const *_PRECOMP* entry point references no shared mutable global; (3) warm-up: a *_simple call after a completed call with the same key performs no write to its cache; (4) shared_caches_keyed_by_dimension_only: every convenience cache that is not thread-local is keyed by the dimension alone (kernel-decided on the extracted structure), which is what the warm-up protocol needs; (5) Properties/C12Warm.lean, for every extracted cache that is not thread-local: Warm D (one completed call per dimension of D, any history of calls with power-of-two dimensions) is preserved by every step, and every later call with m in D and ARBITRARY other arguments rebuilds nothing, writes no slot, leaves the cache state unchanged and uses the table built for its m (warmup_no_shared_write, _seq, warmup_from_history); lifted to threads whose atomic actions are convenience calls executed by the real step (warmup_schedule_indep: every schedule leaves the shared cache unchanged, per-thread observations = solo); thread-local caches work on a per-thread object (tls_rows_private, tls_schedule_indep)",
         not_proved="real weak-memory interleavings, compiler reordering and the first-use race of the *_simple functions are runtime behaviour: exhibited by the ThreadSanitizer stream (16 threads, fresh and warmed-up), not by a theorem; extraction of the call graph / global references from the object files is trusted; SCOPE of obligation (2): static-storage objects only - a write through the const MODULE* / const *_PRECOMP* pointer into the heap object itself (lazily filled field, cast-away const) is excluded by no theorem, only by the TSan stream and the byte snapshots of C18; the q120 product kernels take a non-const precomp pointer and are roots since the extraction also accepts non-const *_precomp first parameters; mt_module exercises the module-level entry points, the big-coefficient wrappers, prepare/apply, and every table-based kernel family (fftvec products, conversions, FFT/iFFT, q120 products and NTT) on shared objects, not every exported function; a convenience call is one atomic action in the thread model of C12Warm (two threads inside the warm-up call of the same dimension are outside it: TSan stream); the call-graph extraction does not follow pointers to globals stored in data tables",
         level_text="Lean 4 theorem over sequentially consistent interleavings + kernel-decided obligation on the call graph and global-reference sets extracted from the freshly built objects; TSan and per-thread-vs-solo bitwise streams tie it to the real code (partial: runtime memory model not modelled)",
         design_ref="DESIGN.md §5 C12",
@@ -216,7 +216,7 @@ PROPS = {
         extra_modules=["SpqProofs.Properties.Cover", "SpqProofs.Properties.C14Sel"],
         variants={"plain": None},
         streams=dict(quick=[("f6_conv", "plain"), ("cv_conv32", "plain")], thorough=[("f6_conv", "plain"), ("cv_conv32", "plain")]),
-        proved="on the bit-exact soft-float model, for every m (through the loop / shuffle structure of each kernel), every divisor 2^j with finite table constants and every input pattern in the stated magnitude domain: from_znx64 exact (cast and add-2^51/or/sub trick, |x|<2^50); to_znx64 ref (|x/d|<2^63) and bnd50 (|x/d|<2^50) within 1/2 of x/d; cplx_from_znx32 / cplx_from_tnx32 exact for every int32 (ref and AVX2 shuffle kernel); cplx_to_tnx32 ref and AVX2 = round(x*2^32/d) mod 2^32 for |x/d|<2^18; reim_to_tnx ref = avx bit-for-bit and x/d - integer within 2^(L-51), result in [-1/2,1/2), for every log2overhead L<=48 with the table recomputed by the model of the constructor; to_znx64_bnd63 / to_znx64_bnd63_wide: the repaired wide kernel (D7) within 1/2 of x/d for |x/d| < 2^52, ties included, and exact up to 2^63; the pre-repair kernel is kept as bnd63OffsetOld with its kernel-checked counterexample at x = pred(d/2); to_tnx_basic_ref_partial (rint form, exact x/d - n, under a no-underflow hypothesis) Properties/C14Sel.lean: to_znx64_selection (which kernel init_reim_to_znx64_precomp installs, from the model of the constructor), to_znx64_constructor_matches_library (Gen obligation: that model selects the kernel the LIVE library installed, for bounds 50/51/52/63, 5 CPU masks, m = 2^0..2^16) and to_znx64_dispatch (constructor + selected kernel within 1/2 of x/d in one statement for m < 2^32, -1020 <= j <= 971, finite input with |x/d| < 2^min(log2bound, 52); the (2m) % 4 = 0 side condition is derived).",
+        proved="on the bit-exact soft-float model, for every m (through the loop / shuffle structure of each kernel), every divisor 2^j with finite table constants and every input pattern in the stated magnitude domain: from_znx64 exact (cast and add-2^51/or/sub trick, |x|<2^50); to_znx64 ref (|x/d|<2^63) and bnd50 (|x/d|<2^50) within 1/2 of x/d; cplx_from_znx32 / cplx_from_tnx32 exact for every int32 (ref and AVX2 shuffle kernel); cplx_to_tnx32 ref and AVX2 = round(x*2^32/d) mod 2^32 for |x/d|<2^18; reim_to_tnx ref = avx bit-for-bit and x/d - integer within 2^(L-51), result in [-1/2,1/2), for every log2overhead L<=48 with the table recomputed by the model of the constructor; to_znx64_bnd63 / to_znx64_bnd63_wide: the repaired wide kernel (D7) within 1/2 of x/d for |x/d| < 2^52, ties included, and exact up to 2^63; the pre-repair kernel is kept as bnd63OffsetOld with its kernel-checked counterexample at x = pred(d/2); to_tnx_basic_ref_partial (rint form, exact x/d - n, under a no-underflow hypothesis) Properties/C14Sel.lean: to_znx64_selection (which kernel init_reim_to_znx64_precomp installs, from the model of the constructor), to_znx64_constructor_matches_library (Gen obligation: that model selects the kernel the LIVE library installed, for every row of the regenerated dispatch table with bounds 50/51/52/63 (as generated: 5 CPU masks, m = 2^0..2^16; the theorem itself only guarantees the floor of one reference and one 14-dimension AVX row per bound)) and to_znx64_dispatch (constructor + selected kernel within 1/2 of x/d in one statement for m < 2^32, -1020 <= j <= 971, finite input with |x/d| < 2^min(log2bound, 52); the (2m) % 4 = 0 side condition is derived).",
         not_proved="Inf/NaN inputs are not modelled by Spq.F64 (excluded by the magnitude bounds or by explicit finiteness hypotheses); log2overhead 49..52 are outside the property; to_tnx_basic_ref below the underflow threshold of the quotient (error <= 2^-1075, inside the tolerance) is not covered (_partial); the reim int32 conversions are NOT_IMPLEMENTED stubs in the library (Cover.reim32_all_entry_points_abort)",
         assumptions=COMMON_ASSUME + ["divisor/2., 1./divisor and 2^32/divisor are compiled as IEEE divisions or exact multiplications (bit-identical for powers of two)"],
     ),
@@ -251,7 +251,7 @@ PROPS = {
         streams=dict(quick=[("md_prog", "plain"), ("vz_box", "plain"), ("ff_tables", "plain")],
                      thorough=[("md_prog", "plain"), ("vz_box", "plain"), ("ff_tables", "plain")]),
         proved="coefficient-space fragment, complete: for every layout (N = 2^t, strides >= N, pairwise disjoint variables inside one int64 heap), every straight-line program of add/sub/negate/copy/rotate/automorphism/normalize calls (any length, destination equal to a source or not, any limb counts incl. 0) and every input, if the exact interpreter stays in budget (every stored coefficient fits int64; |normalize input| <= 2^62, k in [1,62]; odd automorphism index) then the heap after running the model of vec_znx.c holds, limb by limb, the exact expression in Z[X]/(X^N+1) (pointwise +-, X^p*a, a(X^p) = sum a_i X^(ip), balanced base-2^k digits), all other cells (padding, other variables) are unchanged and no access was out of bounds (coeff_prog_refines, coeff_prog_output; per-call *_sim derived from the C08/C09/C05 specs). Mixed programs (dft, svp_prepare/apply, vmp_prepare/apply, idft, small product on a second store of opaque objects): prog_refines_partial proves the refinement for every module and every program relative to the record DftOpsSound of per-function exactness facts (dft_exact, svp_exact, vmp_exact, dft_idft_exact, small_product_exact = the C01/C02 theorems) - heap reads with strides, stores, frames, interplay with coefficient-space calls and validity of opaque objects as inputs of later calls are proved; DftOpsSound is shown inhabited (identity-transform module) BINARY64 (Properties/C16Err.lean): the program interpreter run with the binary64 module instance Cfg.parts produces exactly the integer limbs of the exact interpreter for every well-typed program (all ten ops incl. vmp_apply_dft_to_dft) whose DFT-space steps satisfy their per-operation budget (round trip dft->idft: 17 log2(N) u |a|_2 < 1/2; svp / small product: C01Err budget; vmp: C02Err budget) and whose vmp_apply_dft_to_dft reads a raw dft output (SingleProductDepth, decidable): prog_refines_f64_partial, prog_output_f64_partial, dftOpsSound_f64 (a definition: the DftOpsSound record instantiated for the library module), f64_agrees_with_exact_network_partial. The stream md_prog now also sends every program to the Lean program model (driver family pg) and compares the final heap and every DFT variable bit for bit. NON-VACUITY (Properties/ErrWitness.lean): at N = 8 (m = 4, K = R, zeta = exp(i pi/8)) with the library's ACTUAL stored twiddle patterns and the configuration it installs on this host, every hypothesis of reim_fft_err / reim_ifft_err, small_product_err / _exact, vmp_exact (2x1) and roundtrip_exact (CfgOk, 3.5u accuracy of both tables proved from rational enclosures of cos/sin(pi/8), flags by evaluation, budget) is discharged on concrete integer inputs and the conclusions are evaluated (witness_*_k2); not covered by a witness: the cplx-layout error theorems, svp_err / vmp_err and the C16Err2 budgets; the table patterns and the configuration in the witness are literals read from the library once, not regenerated per run. Properties/C16Err2.lean removes the SingleProductDepth restriction: with a metric invariant (per-limb 2-norm distance delta of a DFT variable from the exact transform, propagated through svp / vmp / vmp_apply_dft_to_dft by explicit formulas) prog_refines_f64_metric_partial / prog_output_f64_metric_partial hold for EVERY OpD program, product chains of any depth (example at N = 2; Properties/ErrWitness2.lean: a product of a product at N = 8 over R with the library's real tables, every C16Err2 budget discharged, exact result (exA8*exB8)*exC8).",
-        not_proved="DftOpsSound is instantiated for the real FFT network in exact arithmetic (Closed: dftOpsSound_network, prog_refines_closed, incl. products of products) and for the library binary64 module (C16Err: dftOpsSound_f64). What remains for binary64: the per-operation budgets carry the proved constants (12 / 17 instead of the property 8 / 16), twiddle accuracy and the underflow side condition are hypotheses, the per-operation flags of a product fed into a product (C16Err2) are stated on the concrete binary64 operand. NTT120 big-coefficient programs (int128 limbs) are not in the program model (module-level theorems in C03Mod; md_prog stream). Properties/Bridge.lean (an obligation of this check) ties the rotation/automorphism formulas and the NTT-side product formula Q120Ntt.nmul to Mathlib AdjoinRoot (X^N+1); Properties/BridgeFft.lean does the same for the FFT-side formulas Spq.nmul / isum / Prog.polyMul / vmpVal used by C01/C02/Closed/C16",
+        not_proved="DftOpsSound is instantiated for the real FFT network in exact arithmetic (Closed: dftOpsSound_network, prog_refines_closed, incl. products of products) and for the library binary64 module (C16Err: dftOpsSound_f64). What remains for binary64: the per-operation budgets carry the proved constants (12 / 17 instead of the property 8 / 16), twiddle accuracy and the underflow side condition are hypotheses, the per-operation flags of a product fed into a product (C16Err2) are stated on the concrete binary64 operand. NTT120 big-coefficient programs (int128 limbs) are not in the program model (module-level theorems in C03Mod; md_prog stream). Properties/Bridge.lean (an obligation of this check) ties the rotation/automorphism formulas and the NTT-side product formula Q120Ntt.nmul to Mathlib AdjoinRoot (X^N+1); Properties/BridgeFft.lean does the same for the FFT-side formulas Spq.nmul / isum / Prog.polyMul / vmpVal used by C01/C02/Closed/C16; vmp_apply_dft_to_dft in place (d = a) is excluded by the precondition (the library re-reads a row it has overwritten for N < 8); ErrWitness2 discharges the budgets of the vmp_apply_dft_to_dft and idft steps of a chain, not of svp_metric / vmp_metric / the whole-program theorem at N = 8",
         level_text="Lean 4 refinement theorem (simulation by induction on the program) for the whole coefficient-space fragment over the heap model of vec_znx.c; DFT-space extension proved relative to an explicit record of per-function exactness hypotheses; random well-typed programs over the real library (both dispatch masks, aliasing, shapes) checked against an independent 128-bit exact interpreter",
         design_ref="DESIGN.md §5 C16",
         technique="Lean 4 proof (generic simulation theorem + per-call lemmas from C08/C09/C05 specifications) + differential program-level correspondence",
